@@ -10,6 +10,7 @@ mod progmc;
 mod fam_core;
 mod fam_fn;
 mod fam_match;
+mod fam_err;
 
 use common::Args;
 
@@ -48,6 +49,15 @@ fn main() {
             &fam_match::classify,
             None,
             "C03 families: 23 subject values x every single arm over 48 patterns x else/no else x 4 result uses; guards; all two-arm lists over a 16-pattern core (thorough: 48 x 16, and three arms); or-alternatives x guards; multi-subject rows; multi-assignment targets <= 3 over 5 target kinds x 17 right-hand sides and explicit value lists; for-argument lists x 10 sequences",
+            &[],
+        ),
+        "progmc-err" => progmc::run_profile(
+            &args,
+            run::RunCfg::default(),
+            &fam_err::generate,
+            &fam_err::classify,
+            Some(&fam_err::state_check),
+            "C04 families: 9 fault kinds x 12 fault sites (inline, call depth 1/3, method, each/fold callbacks, generator, @+, list/string/call/map construction) x 7 handler structures (catch, finally, typed chains in all orders, nested matching/rethrowing) x 4 result uses; try/catch/finally blocks left by fall-through/return/break/continue/throw inside a loop inside a function; errors caught inside open string/list/tuple/map/call constructions; no-error paths. After every run the VM's internal stacks must be empty (hook H1)",
             &[],
         ),
         other => {
